@@ -165,6 +165,10 @@ fn walk(bytes: &[u8]) -> String {
         }
         Err(e) => err_name(e),
     })));
+    f.push(format!("SIS={}", guard(|| match &sys {
+        Ok(s) => format!("ok:{}:{}", s.csd_version().is_some() as u8, s.cpu_info().is_some() as u8),
+        Err(e) => err_name(e),
+    })));
     let sys = sys.ok();
     let misc = catch_unwind(AssertUnwindSafe(|| dump.get_stream::<MinidumpMiscInfo>())).unwrap_or(Err(Error::IoError));
     f.push(format!("MS={}", guard(|| match &misc {
@@ -478,7 +482,7 @@ fn walk(bytes: &[u8]) -> String {
     }
     simple!("BP", MinidumpBreakpadInfo, |v| {
         v.print(&mut out).unwrap();
-        "ok".to_string()
+        format!("ok:{}:{}", v.dump_thread_id.is_some() as u8, v.requesting_thread_id.is_some() as u8)
     });
     simple!("CP", MinidumpCrashpadInfo, |v| {
         v.print(&mut out).unwrap();
@@ -487,8 +491,7 @@ fn walk(bytes: &[u8]) -> String {
     });
     simple!("AS", MinidumpAssertion, |v| {
         v.print(&mut out).unwrap();
-        let _ = (v.expression(), v.function(), v.file());
-        "ok".to_string()
+        format!("ok:{}:{}:{}", v.expression().is_some() as u8, v.function().is_some() as u8, v.file().is_some() as u8)
     });
     simple!("MC", MinidumpMacCrashInfo, |v| {
         v.print(&mut out).unwrap();
@@ -496,7 +499,7 @@ fn walk(bytes: &[u8]) -> String {
     });
     simple!("MB", MinidumpMacBootargs, |v| {
         v.print(&mut out).unwrap();
-        "ok".to_string()
+        format!("ok:{}", v.bootargs.is_some() as u8)
     });
     simple!("LC", MinidumpLinuxCpuInfo, |v| {
         let _ = v.raw_bytes().len();
